@@ -62,10 +62,16 @@ func init() {
 					}
 				}
 			}
+			// long frames: the largest request followed / preceded by short ones (more than 260 bytes buffered at once)
+			for _, ks := range [][]int{{5, 0}, {0, 5}, {6, 0, 0}, {5, 5}} {
+				for r := 1; r <= 2; r++ {
+					add(len(ks), r, ks...)
+				}
+			}
 			return js
 		},
 		Bounds: map[string]string{
-			"quick":    "streams of 1..3 request frames (kinds: FC3, FC6, FC16 with payload, unsupported function, out-of-range quantity; transaction id, unit, addresses, values symbolic); single frames cut into up to 4 reads, two frames into up to 3 reads, three frames into 2..3 reads, with EVERY cut position (case-split over all byte offsets); lock-step and pipelined (next request in the same read) arrivals",
+			"quick":    "streams of 1..3 request frames (kinds: FC3, FC6, FC16 with payload, unsupported function, out-of-range quantity; transaction id, unit, addresses, values symbolic); single frames cut into up to 4 reads, two frames into up to 3 reads, three frames into 2..3 reads, with EVERY cut position (case-split over all byte offsets); lock-step and pipelined (next request in the same read) arrivals; plus streams with the largest request (FC16 with 123 registers, 260 bytes; 110 registers, 233 bytes) next to short ones, in 1..2 reads with every cut position, so that more than one maximal frame is buffered at once",
 			"thorough": "same as quick (the bound is the claim)",
 		},
 		Outside:   []string{"more frames / reads than the bound", "the connection loop around the assembler (reads are handed to ReceiveRead one by one, as connection.handle does)"},
